@@ -2,6 +2,7 @@ import LentilVerif.Lemmas.Geometry
 import LentilVerif.Lemmas.GeometrySums
 import LentilVerif.Lemmas.GeometryShapes
 import LentilVerif.Lemmas.GeometryHex
+import LentilVerif.Lemmas.GeometryCentroid
 import Mathlib.Analysis.SpecialFunctions.Trigonometric.Basic
 /-! # C20 — array geometry helpers share one centre convention (index ⌊n/2⌋)
 
@@ -364,6 +365,23 @@ theorem centroid_of_indicator (s0 s1 p q : ℕ) (v : Int) (hp : p < s0) (hq : q 
   · exact key (fun i _ => (i : Int))
   · exact key (fun _ j => (j : Int))
   · have := key (fun _ _ => 1); simpa using this
+
+/-- **the centroid is consistent with the centre convention**: an array that is unchanged by the half-turn about the sample
+`(c₀, c₁)` (every non-zero sample has its mirror image `(2c₀ − i, 2c₁ − j)` inside the array, with the same value) has its centroid
+at `(c₀, c₁)` — numerators `c₀·T`, `c₁·T` over the total `T`. With `c = ⌊n/2⌋` this is the origin sample of every drawn shape. -/
+theorem centroid_of_half_turn_symmetric (n0 n1 c0 c1 : ℕ) (g : Int → Int → Int)
+    (hsym : ∀ i j : ℕ, i < n0 → j < n1 → g i j ≠ 0 →
+      i ≤ 2 * c0 ∧ j ≤ 2 * c1 ∧ 2 * c0 - i < n0 ∧ 2 * c1 - j < n1 ∧ g ((2 * c0 - i : ℕ) : Int) ((2 * c1 - j : ℕ) : Int) = g i j) :
+    centroidNum ⟨n0, n1, g⟩ = ((c0 : Int) * (centroidNum ⟨n0, n1, g⟩).2.2, (c1 : Int) * (centroidNum ⟨n0, n1, g⟩).2.2,
+      (centroidNum ⟨n0, n1, g⟩).2.2) := centroid_half_turn n0 n1 c0 c1 g hsym
+
+/-- the centroid of the indicator of a set of samples is the mean position of the set (numerators `Σ_S i`, `Σ_S j`, total `|S|`) -/
+theorem centroid_of_indicator_set (n0 n1 : ℕ) (S : Finset (ℕ × ℕ)) (hS : S ⊆ Finset.range n0 ×ˢ Finset.range n1)
+    [DecidablePred (· ∈ S)] :
+    centroidNum ⟨n0, n1, fun i j => if (i.toNat, j.toNat) ∈ S then 1 else 0⟩
+      = (∑ p ∈ S, (p.1 : Int), ∑ p ∈ S, (p.2 : Int), (S.card : Int)) := centroid_indicator_set n0 n1 S hS
+
+example : centroidNum ⟨3, 5, fun i j => if (i = 0 ∧ j = 1) ∨ (i = 2 ∧ j = 3) ∨ (i = 1 ∧ j = 2) then 7 else 0⟩ = (1 * 21, 2 * 21, 21) := by decide
 
 /-! ## hexagonal segment grid -/
 
